@@ -488,7 +488,25 @@ def feasible_point_list(rng, vs: Sequence[str], n: int, style: str = "int") -> L
 
 def containment_pair(rng) -> Dict[str, Any]:  # noqa: C901
     fam = rng.choice(["unrelated", "weaken", "farkas", "boundary", "separated", "reflexive", "sublist",
-                      "unbounded", "emptyleft", "emptyright", "near", "unrelated", "farkas", "weaken", "huge"])
+                      "unbounded", "emptyleft", "emptyright", "near", "unrelated", "farkas", "weaken", "huge",
+                      "steep"])
+    if fam == "steep":
+        # a row with large coefficients and a small constant; the left side states the same row moved by a few
+        # tolerances (of the *constant*) either way - the answer must not depend on the size of the coefficients
+        vs = VN[: rng.randint(1, 3)]
+        sel = rng.sample(vs, rng.randint(1, len(vs)))
+        mag = float(rng.choice([4096, 8192, 1e4, 65536, 1e5, 250000, 1e6]))
+        co = {v: rng.choice([1.0, -1.0]) * mag * rng.choice([1.0, 0.5, 3.0]) for v in sel}
+        k = float(rng.choice([0, 1, -1, 2.5, 10, 0.125]))
+        tol = 1e-4 * (1 + abs(k))
+        eps = rng.choice([0.0, 3 * tol, 5 * tol, 20 * tol, -3 * tol, -5 * tol, 2.5 * tol, 1e-9])
+        left = [T(co, k + eps)]
+        for v in vs:
+            left += bounds(rng, v, -3.0, 3.0)
+        if rng.random() < 0.5:
+            rng.shuffle(left)
+        right = [T(co, k)] if rng.random() < 0.7 else [scale(T(co, k), float(rng.choice([2, 0.5])))]
+        return {"kind": "list", "family": fam, "style": "int", "left": left, "right": right}
     if fam == "huge":
         # constants (and some coefficients) far beyond the usual range: the right side is missed by a wide margin
         # or contains the left side with a wide margin
